@@ -207,8 +207,11 @@ class Ctx:
             return []
         alt = os.path.join(BUILD, "alt-%s.mod" % hashlib.md5(REPO.encode()).hexdigest()[:8])
         src = open(os.path.join(GO, "go.mod")).read().replace("=> /repo", "=> " + os.path.realpath(REPO))
-        open(alt, "w").write(src)
-        shutil.copy(os.path.join(GO, "go.sum"), alt[:-4] + ".sum")
+        # atomic (several checks may run against the same scratch tree in parallel)
+        tmp = "%s.%d.tmp" % (alt, os.getpid())
+        open(tmp, "w").write(src); os.replace(tmp, alt)
+        tmp = "%s.%d.tmp" % (alt[:-4] + ".sum", os.getpid())
+        shutil.copy(os.path.join(GO, "go.sum"), tmp); os.replace(tmp, alt[:-4] + ".sum")
         return ["-modfile=" + alt]
 
     def go_build(self, pkg, name, tags="verif", race=False):
